@@ -21,7 +21,7 @@ LITERAL = "C19:replay_loss_before_discard"
 
 def make_oracle(chk, counter):
     def oracle(rec):
-        if sum(I._fail_counts(rec).values()) > 0 or any(s["ev"][0] in ("wait", "shutdown") and any(o[0] == "err" for _, o in s["ev"][1])
+        if sum(I._fail_counts(rec).values()) > 0 or any(s["ev"][0] in ("wait", "shutdown", "waitcancel") and any(o[0] == "err" for _, o in s["ev"][1])
                                                        for s in rec.steps):
             return []            # failed evaluations: excluded by the property itself
         errs = O.oracle_c19(rec)
